@@ -37,6 +37,8 @@ CHECKS = {
          'history simulation with clock / RNG / cancellation faults and restart, pristine-node refinement of whole fits, reload pairs'),
  'C15': ('Seeded search over simulated sessions with a file-system reference model (path -> snapshot of the last acknowledged object): objects drawn from a grammar over every exported scatterer, theory, prior (incl. complex, arithmetic and ufunc-derived), strategy and model class (ties, constraints, per-channel optics, calc_func) with extreme floats, complex, NumPy scalars of several dtypes, arrays, tuples and explicit Nones are saved to paths and streams, reloaded in the same or a freshly restarted interpreter, re-saved (1..3 cycles), overwritten, read through short-read / non-seekable / buffered streams and written to failing buffered sinks, with libc-level faults (errno, short transfer, EINTR, crash, torn write) injected at chosen call indices of a save or load. An acknowledged save must load to the same class and constructor arguments (containers normalised, Nones included), dumping the reloaded object must reproduce the text byte for byte, == must hold for list/scalar arguments, a faulted operation may only fail, and a load may never return a different fully formed object.', '5 C15',
          'fault-injected I/O simulation (LD_PRELOAD syscall shim, hostile streams, restarts) against a file-system reference model'),
+ 'C16': ('Seeded search over simulated sessions with a file-system reference model (path -> last acknowledged image): images of random shape / dtype / anisotropic spacing, mono and multi-channel, with scalar, dictionary- or array-valued metadata and names are saved as HDF5 (paths and streams) and TIFF (depth 8 / 16 / float), reloaded in the same or a restarted interpreter, re-saved (1..3 cycles) and overwritten; rasters are loaded with spacing and channel selections; sets of images are averaged with the directory listing returned in seeded permutations (glob seam) and in explicit shuffled orders; update_metadata is applied to shared images; and libc-level faults (errno, short transfer, EINTR, crash) are injected inside saves and loads. Acknowledged HDF5 files must load to identical values, coordinates, name and metadata, TIFFs within the stated quantisation, averages must equal the pixelwise batch mean and relative noise in every order, update_metadata may change only the named fields of a new image, and a node death inside libhdf5 under an armed fault is an expected outcome after which every untainted acknowledged file still loads to its snapshot.', '5 C16',
+         'fault-injected I/O simulation (syscall shim, restarts, glob-order seam) against a file-system reference model + purity fingerprints'),
 }
 
 def main():
